@@ -111,3 +111,68 @@ def lookup {κ ν : Type} [DecidableEq κ] (k : κ) : List (κ × ν) → Option
   | (k', v) :: t => if k' = k then some v else lookup k t
 
 end Vegeta.Model.Prom
+
+/-! ### the attack command's glue (attack.go `processAttack`) and `NewMetrics` -/
+namespace Vegeta.Model.Prom
+open Vegeta.Go
+
+/-- One iteration of the `select` in `processAttack`: a signal arrives, a result arrives (with the
+outcome of `enc.Encode` for it), or the results channel is found closed. -/
+inductive PEv where
+  | signal : PEv
+  | result : Result → Bool → PEv      -- the result and whether `enc.Encode(r)` succeeds
+  | closed : PEv
+  deriving Repr, DecidableEq
+
+/-- how `processAttack` returned -/
+inductive PRet where
+  | running | retNil | retErr
+  deriving Repr, DecidableEq
+
+structure Pump where
+  pm      : Option State     -- `pm *prom.Metrics` (nil without -prometheus-addr)
+  encoded : List Result      -- what the encoder has written, in order
+  stopped : Bool             -- `atk.Stop()` was called (first signal)
+  ret     : PRet
+  deriving Repr, DecidableEq
+
+def Pump.start (pm : Option State) : Pump := { pm := pm, encoded := [], stopped := false, ret := .running }
+
+/-- ```
+case <-sig:  if stopSent := atk.Stop(); !stopSent { return nil }      // second signal: exit immediately
+case r, ok := <-res:
+    if !ok { return nil }
+    if pm != nil { pm.Observe(r) }
+    if err := enc.Encode(r); err != nil { return err }
+``` -/
+def pumpStep (s : Pump) (e : PEv) : Pump :=
+  if s.ret ≠ .running then s else
+  match e with
+  | .signal => if s.stopped then { s with ret := .retNil } else { s with stopped := true }
+  | .closed => { s with ret := .retNil }
+  | .result r encOk =>
+    let pm' := s.pm.map (fun st => observe st r)
+    if encOk then { s with pm := pm', encoded := s.encoded ++ [r] }
+    else { s with pm := pm', ret := .retErr }
+
+def pumpRun (pm : Option State) (evs : List PEv) : Pump := evs.foldl pumpStep (Pump.start pm)
+
+/-- Several `Metrics` values in one process: `NewMetrics()` appends a fresh instance, `Observe` on
+instance `i` updates that instance only (each instance owns its four vectors). -/
+inductive WOp where
+  | new : WOp
+  | observe : Nat → Result → WOp
+  deriving Repr, DecidableEq
+
+def modifyAt {α : Type} (f : α → α) : List α → Nat → List α
+  | [], _ => []
+  | x :: xs, 0 => f x :: xs
+  | x :: xs, i+1 => x :: modifyAt f xs i
+
+def worldStep (w : List State) : WOp → List State
+  | .new => w ++ [State.init]
+  | .observe i r => modifyAt (fun st => observe st r) w i
+
+def worldRun (ops : List WOp) : List State := ops.foldl worldStep []
+
+end Vegeta.Model.Prom
